@@ -16,7 +16,7 @@ PARTIAL = [
 ]
 
 
-def observe_guard_calls(name, src):
+def observe_guard_calls(name, src, R_opt=None):
     """run the real pipeline, recording inputs/outputs of every CheckPreprocessorProtection.run"""
     import io, contextlib
     from impl import watchdog, registry
@@ -61,7 +61,7 @@ def observe_guard_calls(name, src):
     outcome = "ok"
     try:
         with watchdog(10), contextlib.redirect_stdout(io.StringIO()):
-            registry().run(Context(f, list(Lexer(f))))
+            registry().run(Context(f, list(Lexer(f)), 0, R_opt))
     except CParsingError:
         outcome = "fatal"
     except BaseException as e:
@@ -105,6 +105,19 @@ def variants(base, rng):
     out.append(("G4_doubled", base, ok + f"#ifndef {g}\n# define {g}\n#endif\n", {"HEADER_PROT_MULT"}))
     out.append(("G5_code_before", base, ok.replace(f"#ifndef {g}", f"int\tft_early(void);\n#ifndef {g}"), {"HEADER_PROT_ALL"}))
     out.append(("G6_code_after", base, ok + "int\tft_late(void);\n", {"HEADER_PROT_ALL_AF"}))
+    # two mutations at once: each diagnostic is still there
+    T = {
+        "G1": (lambda t: t.replace(f"#ifndef {g}", f"#ifndef {other}").replace(f"# define {g}", f"# define {other}"), {"HEADER_PROT_NAME"}),
+        "G3": (lambda t: t.replace(f"# define {g}\n", ""), {"HEADER_PROT_NODEF"}),
+        "G4": (lambda t: t + f"#ifndef {g}\n# define {g}\n#endif\n", {"HEADER_PROT_MULT"}),
+        "G5": (lambda t: t.replace("\n#ifndef ", "\nint\tft_early(void);\n#ifndef ", 1), {"HEADER_PROT_ALL"}),
+        "G6": (lambda t: t + "int\tft_late(void);\n", {"HEADER_PROT_ALL_AF"}),
+    }
+    if g.lower() != g:
+        T["G2"] = (lambda t: t.replace(f"#ifndef {g}", f"#ifndef {g.lower()}").replace(f"# define {g}", f"# define {g.lower()}"), {"HEADER_PROT_UPPER"})
+    for x, y in (("G1", "G5"), ("G2", "G5"), ("G1", "G6"), ("G3", "G5"), ("G3", "G6"), ("G5", "G6"), ("G2", "G6"), ("G1", "G3")):
+        if x in T and y in T and rng.random() < 0.5:
+            out.append((f"{x}+{y}", base, T[y][0](T[x][0](ok)), T[x][1] | T[y][1]))
     out.append(("G7_unguarded", base, f"{h}\n{b}", {"HEADER_PROT_*"}))
     cname = base[:-2] + ".c"
     out.append(("G8_c_name", cname, ok, "none"))
@@ -117,12 +130,16 @@ def run(res, tier, br, model_ok=True, search=False):
     reqs, metas = [], []
     for base in names(rng, 60 if big else 14):
         for vname, fname, text, want in variants(base, rng):
-            outcome, diags, calls = observe_guard_calls(fname, text)
+            # the norminette-2 compatibility option must not change the protection diagnostics
+            r_opt = rng.choice([None, None, "CheckDefine", "CheckForbiddenSourceHeader"])
+            if r_opt:
+                vname = vname + "/-R " + r_opt
+            outcome, diags, calls = observe_guard_calls(fname, text, r_opt)
             res.count("guard", 1)
             res.nontriv((vname, fname, text[-200:]))
-            rp = {"kind": "guard", "name": fname, "variant": vname, "src": text}
+            rp = {"kind": "guard", "name": fname, "variant": vname, "src": text, "R": r_opt}
             if outcome != "ok":
-                if vname in ("correct", "G8_c_name"):
+                if vname.split("/")[0] in ("correct", "G8_c_name"):
                     res.report("guard:not-analysed", f"{fname} [{vname}]: outcome {outcome}", rp)
                 continue
             codes = {d[0] for d in diags}
@@ -165,7 +182,7 @@ def replay(rp):
     if rp.get("kind") != "guard":
         print("replay names a broken obligation/correspondence:", rp.get("broken"))
         return 1
-    outcome, diags, calls = observe_guard_calls(rp["name"], rp["src"])
+    outcome, diags, calls = observe_guard_calls(rp["name"], rp["src"], rp.get("R"))
     print("variant:", rp.get("variant"), "file:", rp["name"], "outcome:", outcome, "protection diagnostics:", diags)
     print(rp["src"][-400:])
     return 1
